@@ -477,6 +477,15 @@ func (k Keeper) MakeConsumerGenesis(
 			)
 		}
 
+		// a client identifies at most one consumer chain: reject a connection whose client
+		// is already used by another consumer chain
+		if otherConsumerId, found := k.GetClientIdToConsumerId(ctx, clientId); found && otherConsumerId != consumerId {
+			return gen, errorsmod.Wrapf(types.ErrInvalidConsumerClient,
+				"client(%s) of connection(%s) is already used by consumer chain %s",
+				clientId, initializationRecord.ConnectionId, otherConsumerId,
+			)
+		}
+
 		// set the counterparty connection ID
 		counterpartyConnectionId = connectionEnd.Counterparty.ConnectionId
 
